@@ -168,6 +168,27 @@ class Check:
             self.axioms_used = sorted(used)
             self.say("[audit] %d theorems + %d fact obligations; Print Assumptions: %d closed, axioms used: %s" %
                      (len(self.theorems), len(self.fact_obligations), closed, sorted(used) or "none"))
+        # thorough tier: the compiled theorems (and everything they depend on) are re-checked by the independent
+        # checker, which also lists every axiom, assumed-positive inductive and unguarded fixpoint in their closure
+        if rc == 0 and self.tier == "thorough" and not self.broken:
+            mods = ["SudachiVerif.Properties.%s" % self.pid]
+            if len(targets) > 1:
+                mods.append("SudachiVerif.Witness.%s" % self.pid)
+            rc3, out3, dt3 = sh(["coqchk", "-o", "-silent", "-Q", ".", "SudachiVerif"] + mods, cwd=COQ, timeout=3000)
+            summ = {}
+            for m in re.finditer(r"^\* ([^:\n]+):\s*(.*?)(?=^\* |\Z)", out3, flags=re.M | re.S):
+                summ[m.group(1).strip()] = " ".join(m.group(2).split())
+            ax = summ.get("Axioms", "?")
+            ax_names = set(re.findall(r"([A-Za-z0-9_.']+)", ax)) - {"none"} if ax != "<none>" else set()
+            others = {k: v for k, v in summ.items() if k not in ("Axioms", "Theory") and v != "<none>"}
+            self.coqchk = {"modules": mods, "seconds": round(dt3, 1), "summary": summ}
+            if rc3 != 0 or "Axioms" not in summ:
+                self.broken.append(("audit", "coqchk", out3[-400:]))
+                self.discharged = 0
+            elif ax_names - allowed or others:
+                self.broken.append(("audit", "coqchk", "axioms %s; %s" % (ax, others)))
+                self.discharged = 0
+            self.say("[audit] coqchk %s: axioms %s (%.0fs)" % (" ".join(mods), ax, dt3))
         # forbidden words anywhere in the development
         hits = []
         for f in glob.glob(os.path.join(COQ, "**", "*.v"), recursive=True):
@@ -353,6 +374,8 @@ class Check:
             cov["obligations_discharged"] = cov.pop("discharged")
         cov.update(meta.get("extra", {}))
         cov.update(self.extra_cov)
+        if getattr(self, "coqchk", None):
+            cov["coqchk"] = self.coqchk
         ev = {
             "property_id": self.pid,
             "tier": self.tier,
